@@ -77,3 +77,58 @@ _install = install
 def install(w):   # noqa: F811
     _install(w)
     install_validate(w)
+
+
+def install_visit(w):
+    w.const_overrides["graphql.language.visitor.QUERY_DOCUMENT_KEYS"] = ("omap", ("list", "str"))
+    w.alias("Node", "graphql.language.ast.Node")
+    w.alias("Visitor", "graphql.language.visitor.Visitor")
+    w.define("IsNode", "v", "instance_of(v, 'Node')")
+    INV = [
+        "sdepth(stack) >= 0",
+        "(stack is None) == is_none(parent)",
+        "implies(stack is not None, truthy(parent) or (is_tuple(parent) and vlen(parent) == 0 and idx + 1 == seqlen(keys)))",
+        "len(ancestors) == max(sdepth(stack) - 1, 0)",
+        "len(path) == max(sdepth(stack) - 1, 0)",
+        "implies(stack is None, idx == -1 and seqlen(keys) == 1 and not in_array and len(edits) == 0)",
+        "-1 <= idx and idx + 1 <= seqlen(keys)",
+        "is_sized(keys)",
+        "implies(stack is None, same(node, root))",
+        "forall(j, 0, len(ancestors), truthy(ancestors[j]))",
+        "frames_ok(stack)",
+        # identity: without an editing visitor result nothing is ever recorded as an edit
+        "implies(ghost('edit_results') == old(ghost('edit_results')), len(edits) == 0 and edits_empty(stack))",
+        "ghost('edit_results') >= old(ghost('edit_results'))",
+    ]
+    w.contract("graphql.language.visitor.visit",
+               params={"root": "dyn", "visitor": "dyn", "visitor_keys": ("omap", ("list", "str"))},
+               returns="dyn",
+               ensures=["implies(ghost('edit_results') == old(ghost('edit_results')), same(result, root))"],
+               # TypeError for a non-node root/child or a non-visitor; visitor functions may raise
+               raises=["TypeError", "Exception"], modifies=[],
+               locals={"path": ("list", "dyn"), "ancestors": ("list", "dyn"),
+                       "edits": ("list", ("tuple", "dyn", "dyn")),
+                       "stack": "opt:ref:Stack", "keys": "dyn", "node": "dyn", "parent": "dyn",
+                       "key": "dyn"},
+               loops={1: {"invariant": INV,
+                          # after entering a (non-array) node the keys to traverse are the table
+                          # entry of the kind of the node that was entered (after a replacement)
+                          "step_post": ["implies(not is_leaving and not in_array,"
+                                        " keys_of_kind(keys, visitor_keys, parent))"]}},
+               dyn_call_ghost=("edit_results", "is_edit"),
+               havoc_stmts=["values = {k: getattr(node, k) for k in node.keys} | dict(edits)",
+                            "node = node.__class__(**values)"],
+               waive=["IndexError from `node.pop(array_key)`", "IndexError from `node[array_key] = edit_value`",
+                      "TypeError from `edit_key - edit_offset`",
+                      # that a restored frame's (in_array, keys) describe the restored parent needs a
+                      # relation between the frame list and the ancestors list (not stated here)
+                      "IndexError from `parent[key]`", "TypeError from `parent[key]`"],
+               props={"C11"})
+
+
+_install2 = install
+
+
+def install(w):   # noqa: F811
+    _install2(w)
+    install_visit(w)
